@@ -1,0 +1,33 @@
+//go:build verif
+
+package types
+
+// Contracts for the verification machinery in /verif (comment-only file; no code).
+//
+// verif:import sdk github.com/cosmos/cosmos-sdk/types
+//
+// rewardValid is what BeginBlocker needs from the per-block reward list (C20: min(reward, remaining)
+// *per denomination*, so denominations must be pairwise distinct) and what parameter validation must
+// therefore establish (C15: every accepted value executes without panic).
+// verif:pred rewardFacts(r) := len(r) != 0 && forall i int :: 0 <= i && i < len(r) ==> len(r[i].Denom) != 0 && r[i].Amount >= 0
+// verif:pred distinctDenoms(r) := forall i int :: forall j int :: 0 <= i && i < j && j < len(r) ==> r[i].Denom != r[j].Denom
+// verif:pred rewardValid(r) := rewardFacts(r) && distinctDenoms(r)
+
+// verif:func validatePerBlockReward
+//@ ensures [type]            result == nil ==> istype(r, sdk.Coins)
+//@ ensures [facts]           result == nil ==> rewardFacts(as(r, sdk.Coins))
+//@ ensures [distinct-denoms] result == nil ==> distinctDenoms(as(r, sdk.Coins))
+//@ ensures [complete]        istype(r, sdk.Coins) && rewardValid(as(r, sdk.Coins)) ==> result == nil
+//@ loop 1 invariant [facts-so-far]    forall j int :: 0 <= j && j < idx1 ==> len(reward[j].Denom) != 0 && reward[j].Amount >= 0
+//@ loop 1 invariant [distinct-so-far] forall a int :: forall b int :: 0 <= a && a < b && b < idx1 ==> reward[a].Denom != reward[b].Denom
+//@ loop 2 invariant [no-dup-so-far]   forall a int :: 0 <= a && a < idx2 ==> reward[a].Denom != rr.Denom
+
+// verif:func (*Params).validate
+//@ ensures [sound]    result == nil ==> rewardValid(m.PerBlockReward)
+//@ ensures [complete] rewardValid(m.PerBlockReward) ==> result == nil
+
+// What ValidateGenesis establishes is, clause by clause, the precondition of keeper.InitGenesis.
+
+// verif:func ValidateGenesis
+//@ ensures [params] result == nil ==> rewardValid(data.Params.PerBlockReward)
+//@ ensures [from]   result == nil && len(data.From) != 0 ==> errof(sdk.AccAddressFromBech32(data.From)) == nil
